@@ -179,3 +179,5 @@ _run_f = run
 def run(ctx, rep, tier):
     _run_f(ctx, rep, tier)
     _bodyless_clauses(ctx, rep, tier)
+    from .shared import delegate
+    delegate(ctx, rep, tier, "C07", ("C07.a",), "C08.g", "clause patterns built from character classes: the class algebra (split / union / invert) the merged decider is built from is exact")
